@@ -17,11 +17,11 @@ META = dict(
     level="exploration",
     design_ref="DESIGN.md §5 C45",
     technique="reference-model monitor on ekobox.evol_pdf.evolve_pdfs, info_file.build/build_alphas and genpdf export/load: written files parsed by the harness' own lhagrid1/info readers and compared with the harness contraction of the stored operators, the grids actually written, the runner's couplings and an independent LO/NLO alpha_s ODE",
-    level_text="Randomised exploration over synthetic EKOs (random operators, unsorted evolution grids over 1-4 nf blocks, POLE and MSBAR masses with reference scales different from the masses, orders LO-N3LO, exact and expanded couplings), 1-3 members with missing flavours, target grid absent / list / XGrid, install on/off through a fake lhapdf module; plus dump->load round trips of random blocks and generate_pdf from callables and from an installed parent set. Holds on the executions observed only.",
+    level_text="Randomised exploration over synthetic EKOs (random operators, unsorted evolution grids over 1-4 nf blocks, POLE and MSBAR masses with reference scales different from the masses, orders LO-N3LO, exact and expanded couplings), 1-3 members with missing flavours, target grid absent / list or ndarray in ascending, descending or shuffled order / XGrid, install on/off through a fake lhapdf module; plus dump->load round trips of random blocks and generate_pdf from callables and from an installed parent set. Holds on the executions observed only.",
     level_note="Trusted base: numpy einsum, mpmath interpolation oracle, PyYAML for the info values, eko.runner.commons.couplings as the definition of 'the coupling used by the evolution' (cross-checked by an own ODE for LO/NLO, POLE, matching ratio 1), eko's archive reader for the (few) real-solve cases. xif=1 throughout. Printed precision: 6 significant decimals for x and Q nodes (%.6e), 8 for data (%.8e).",
     rule="case = (kind, scheme, order, method, n nf-blocks, members, target-grid form, install, index); non-trivial = evolve case with >= 2 evolution points not in ascending order or >= 2 nf blocks, dense random operators and a PDF with >= 3 flavours; round-trip case with >= 2 blocks of random data",
     min_nontrivial=25,
-    required_hits=["data_nodes", "info_ranges", "info_alphas_runner", "info_alphas_ode", "msbar_alphas", "targetgrid_list", "targetgrid_xgrid", "roundtrip_blocks", "generate_pdf", "install", "overlapping_blocks_refused"],
+    required_hits=["data_nodes", "info_ranges", "info_alphas_runner", "info_alphas_ode", "msbar_alphas", "targetgrid_list", "targetgrid_unsorted", "targetgrid_xgrid", "roundtrip_blocks", "generate_pdf", "install", "overlapping_blocks_refused"],
     max_inconclusive_frac=0.1,
 )
 
@@ -148,7 +148,20 @@ def _evolve_case(seed, i):
                 tens = synth_f.random_tensors(rng, evolgrid, nx, with_err=bool(rng.random() < 0.5))
                 synth_f.build_eko(ekopath, th_raw, op_raw, tens)
                 kwargs = dict(path=ekodir if pathform == "dir" else ekopath)
-            tg_arg = None if tg is None else (tg.tolist() if tform == "list" else XGrid(tg))
+            # a plain list/array may be given in any order; the written grid is ascending (LHAPDF)
+            r2 = np.random.default_rng([seed, 45, 2, i])
+            tg_order = "ascending"
+            tg_arg = None
+            if tg is not None and tform == "xgrid":
+                tg_arg = XGrid(tg)
+            elif tg is not None:
+                tg_order = ["ascending", "descending", "shuffled", "descending"][int(r2.integers(4))]
+                pts = tg[::-1].copy() if tg_order == "descending" else (tg[r2.permutation(len(tg))] if tg_order == "shuffled" else tg.copy())
+                if np.array_equal(pts, tg):
+                    tg_order = "ascending"
+                tg_arg = pts.tolist() if r2.random() < 0.5 else pts
+            wit["targetgrid_given"] = None if tg_arg is None else np.asarray(getattr(tg_arg, "raw", tg_arg)).tolist()
+            wit["tg_order"] = tg_order
             iu = None if info_update is None else dict(info_update)
             buf = io.StringIO()
             try:
@@ -179,6 +192,8 @@ def _evolve_case(seed, i):
                 out["hits"]["real_solve"] = 1
         if tform == "list":
             out["hits"]["targetgrid_list"] = 1
+            if tg_order != "ascending":
+                out["hits"]["targetgrid_unsorted"] = 1
         if tform == "xgrid":
             out["hits"]["targetgrid_xgrid"] = 1
         # ---------------------------------------------------------- locate output
@@ -256,7 +271,7 @@ def _evolve_case(seed, i):
                         out["hits"]["data_nodes"] = out["hits"].get("data_nodes", 0) + len(got)
                         if np.any(np.abs(got - want[a]) > tol):
                             worst = float(np.max(np.abs(got - want[a]) / (np.abs(want[a]) + 1e-300)))
-                            cls = "targetgrid" if tg is not None else "plain"
+                            cls = ("targetgrid" if tg_order == "ascending" else "targetgrid-unsorted") if tg is not None else "plain"
                             out["viol"].append(
                                 (f"C45/evolve/data/{cls}", f"member {m} nf={nf} Q={q} pid={pid}: written x*f differs from the applied PDF (rel {worst:.2e})",
                                  dict(wit, member=m, nf=nf, Q=q, pid=pid, got=got, want=want[a]))
